@@ -44,6 +44,8 @@ ASSUMPTIONS = [
     "pre-0.3.0 additive durations made of integers only are written as one n/1 number by design (format_fractional_rational); only the value is demanded there",
     "to_v1: float onsets of 0.1.0/0.2.0 notes become the nearest integer (exact .5 ties are not judged); lines without 1.0.0 equivalent (partSequence, mergedFrom) must raise MatchError",
     "the expected text of every line is produced by an independent renderer written from the format descriptions",
+    "alterations -3..3 (### and bbb are accepted by the readers and written since the triple-alteration repair); adj_offset of a 0.3.0-0.5.0 note may be left to the constructor's default (the offset)",
+    "to_v1 of the parsed line must give the text of to_v1 of the built line when the first text carries the built values exactly (no off-grid float, no pre-0.3.0 folded integer sum); to_v1 must leave the text of its argument unchanged; reading .matchline twice gives the same text",
 ]
 
 METHODS = {True: V1.FROM_MATCHLINE_METHODS, False: V0.FROM_MATCHLINE_METHODS}
@@ -360,7 +362,7 @@ def compare_note(c, got, v, n):
     else:
         c.eq("Onset", got.Onset, n["onset"])
         c.eq("Offset", got.Offset, n["offset"])
-        c.eq("AdjOffset", got.AdjOffset, n["adj_offset"])
+        c.eq("AdjOffset", got.AdjOffset, n.get("adj_offset", n["offset"]))
 
 
 def compare_line(c, got, spec):
@@ -558,6 +560,12 @@ def oracle_line(spec):
         o.cls("attribute-list-empty", not spec["snote"]["attrs"])
         o.cls("attribute-list-3+", len(spec["snote"]["attrs"]) >= 3)
         o.cls("tuplet-divisor", any(c[2] is not None for c in spec["snote"]["offset"] + spec["snote"]["duration"]))
+        o.cls("attribute-list-6+", len(spec["snote"]["attrs"]) >= 6)
+        o.cls("triple-alteration", spec["snote"]["alter"] in (3, -3))
+        o.cls("identifier-with-two-dash-groups", spec["snote"]["anchor"].count("-") >= 2)
+    if "note" in spec and tuple(spec["v"]) != G.V100:
+        o.cls("triple-alteration", spec["note"]["alter"] in (3, -3))
+        o.cls("adj-offset-keyword-absent", tuple(spec["v"]) >= G.V030 and "adj_offset" not in spec["note"])
     if kind in ("info", "meta", "scoreprop"):
         o.cls("attr:%s:%s" % (kind, spec["attr"]))
     try:
@@ -573,7 +581,22 @@ def oracle_line(spec):
     want = G.line_text(spec)
     if text1 != want:
         o.add("text-differs-from-format", got=text1, expected=want)
-    check_roundtrip(o, spec, text1)
+    # writing is a read-only operation: a second reading of the property gives the same text, and the object
+    # built from well-typed values passes its own type check
+    again = call(lambda: obj.matchline)
+    if again != text1:
+        o.add("second-write-of-the-same-object-differs", first=text1, second=again)
+    try:
+        if call(obj.check_types, False) is not True:
+            o.add("built-field-types-wrong", text=text1)
+    except SutRaised as e:
+        o.add("check-types-raised", text=text1, exc=e.text)
+    n_before = len(o.discs)
+    parsed = check_roundtrip(o, spec, text1)
+    # (a text that cannot carry the built values exactly - off-grid floats, pre-0.3.0 integer sums folded into
+    # one number - upgrades to another text by design)
+    parsed_clean = (parsed is not None and len(o.discs) == n_before and "float-off-grid" not in o.classes
+                    and "pre-0.3-integer-sum-written-as-one-number" not in o.classes)
 
     # ---- upgrade to 1.0.0
     if v != G.V100 and kind not in ("snote", "note"):
@@ -610,6 +633,20 @@ def oracle_line(spec):
         except SutRaised as e:
             o.add("to-v1-line-unwritable", exc=e.text, where=e.kind, line_class=type(conv).__name__)
             return o
+        # the upgraded line shares its values with the source line: the source must still write its own text
+        src_again = call(lambda: obj.matchline)
+        if src_again != text1:
+            o.add("to-v1-changed-the-source-line", before=text1, after=src_again)
+        # the upgrade of the PARSED line (what load_matchfile holds) is the upgrade of the built line
+        if parsed_clean:
+            o.cls("to_v1-of-parsed-line")
+            try:
+                ptext = call(lambda: quiet(V1.to_v1, parsed).matchline)
+            except SutRaised as e:
+                o.add("to-v1-of-parsed-line-raised", exc=e.text, where=e.kind, line=text1)
+                ptext = ctext
+            if ptext != ctext:
+                o.add("to-v1-of-parsed-line-differs", line=text1, from_built=ctext, from_parsed=ptext)
         if up is None or up.get("value", 0) is None:
             return o
         if "note" in up:
@@ -702,6 +739,21 @@ def variant_text(spec, seed):
         if step2 != step_txt:
             applied.append("note-name-case")
         rest = txt[len(head):]
+        # audit: integer durations spelled n/1 (the pre-0.3.0 habit, accepted by every reader) and further
+        # decimals on the beat times of the fixed-point formats
+        pieces = rest.split(",", 6)  # octave, measure:beat, offset, duration, onset, end, [attrs])
+        k = next(it)
+        if v >= G.V030 and k % 3 == 0:
+            for i in (2, 3):
+                if pieces[i].isdigit():
+                    pieces[i] += "/1"
+                    applied.append("integer-duration-as-n/1")
+        k = next(it)
+        if G.snote_decimals(v) is not None and k % 3 == 0 and G.on_grid(s["onset"], G.snote_decimals(v)) and G.on_grid(s["end"], G.snote_decimals(v)):
+            pieces[4] += "00"
+            pieces[5] += "0"
+            applied.append("extra-decimals")
+        rest = ",".join(pieces)
         k = next(it)
         if k % 2 and s["attrs"]:
             inner = ",".join(s["attrs"])
@@ -1247,9 +1299,11 @@ def _line_sub(name, kinds, quick, thorough, floors):
 SUBCHECKS = [
     _line_sub("lines_score_notes", G.SCORE_NOTE_KINDS, 900, 40000,
               {"rest": 0.04, "tuplet-divisor": 0.05, "duration-additive": 0.05, "float-off-grid": 0.03, "to_v1": 0.3,
-               "attribute-list-empty": 0.03, "attribute-list-3+": 0.05}),
-    _line_sub("lines_performed_notes", G.PERFORMED_NOTE_KINDS, 700, 30000, {"to_v1": 0.3}),
-    _line_sub("lines_global", G.GLOBAL_KINDS, 900, 40000, {"to_v1": 0.2, "float-off-grid": 0.02}),
+               "attribute-list-empty": 0.03, "attribute-list-3+": 0.05,
+               "triple-alteration": 0.03, "attribute-list-6+": 0.04, "identifier-with-two-dash-groups": 0.03, "to_v1-of-parsed-line": 0.3}),
+    _line_sub("lines_performed_notes", G.PERFORMED_NOTE_KINDS, 700, 30000,
+              {"to_v1": 0.3, "triple-alteration": 0.03, "adj-offset-keyword-absent": 0.02, "to_v1-of-parsed-line": 0.3}),
+    _line_sub("lines_global", G.GLOBAL_KINDS, 900, 40000, {"to_v1": 0.2, "float-off-grid": 0.02, "to_v1-of-parsed-line": 0.2}),
     SubCheck(
         "text_variants",
         oracle_variant,
@@ -1262,7 +1316,8 @@ SUBCHECKS = [
             "v1-tempo-indication-parsed-as-list": known_variant_tempo,
             "triple-alteration-unwritable": known_triple_alteration,
         },
-        floors={"variant:accidental-synonym": 0.05, "variant:note-name-case": 0.1, "variant:triple-alteration": 0.01},
+        floors={"variant:accidental-synonym": 0.05, "variant:note-name-case": 0.1, "variant:triple-alteration": 0.01,
+                "variant:integer-duration-as-n/1": 0.01, "variant:extra-decimals": 0.02},
     ),
     SubCheck(
         "durations",
